@@ -111,6 +111,11 @@ TiRules == {
   R("ti.variant", "id", "empty", "reject"),
   R("ti.variant", "type", "unknown", "reject"), R("ti.variant", "type", "layered", "reject"),
   R("ti.variant", "name", "none", "na"),
+  \* text fields without a pattern of their own: a number or a truth value is still not text (nothing but the INI writer's own
+  \* type check stands between such a value and the file)
+  R("ti.variant", "name", "int", "na"), R("ti.variant", "name", "float", "na"), R("ti.variant", "name", "true", "na"),
+  R("ti.variant", "path_packages", "int", "na"), R("ti.variant", "path_repository", "float", "na"), R("ti.variant", "path_identity", "true", "na"),
+  R("ti.variant", "path_debug_packages", "zero", "na"),
   R("ti.childvariant", "uid", "misaligned", "reject"),
   R("ti.images", "image_paths", "absolute", "reject"), R("ti.images", "platforms", "unreferenced", "reject"),
   R("ti.images", "image_paths", "int", "na"),
